@@ -266,6 +266,30 @@ func PoolM() *Pool {
 	return p
 }
 
+// PoolL: long rule bodies (4 to 8 literals), with several matches for the later literals, negation in
+// the middle and at the end, and recursion through a long body.
+func PoolL() *Pool {
+	p := &Pool{Name: "L", Decls: "Decl e(A,B).\nDecl u(A).\n"}
+	add := func(s string) { p.Rules = append(p.Rules, s); p.Tags = append(p.Tags, "") }
+	add("t(X,D) :- e(X,A), e(A,B), e(B,C), e(C,D).")
+	add("t(X,C) :- u(X), e(X,A), e(A,B), e(B,C), !u(C).")
+	add("t(X,B) :- e(X,A), !u(A), e(A,B), !u(B), e(B,_).")
+	add("s(X,F) :- e(X,A), e(A,B), e(B,C), e(C,D), e(D,E), e(E,F).")
+	add("s(X,G) :- e(X,A), e(A,B), e(B,C), e(C,D), e(D,E), e(E,F), e(F,G), !u(G).")
+	add("t(X,D) :- t(X,A), e(A,B), e(B,C), t(C,D).")
+	add("w(X) :- t(X,A), t(A,B), s(B,C), e(C,X).")
+	add("w(X) :- u(X), e(X,A), A != X, e(A,B), B != X, e(B,_).")
+	p.EDBs = [][]string{
+		{"e(1,1)", "e(1,2)", "e(2,1)", "e(2,2)", "u(1)"},
+		{"e(1,2)", "e(2,3)", "e(3,1)", "e(3,3)", "u(1)", "u(3)"},
+		{"e(1,2)", "e(1,3)", "e(2,1)", "e(3,1)", "u(2)"},
+		{"e(1,2)", "e(2,3)", "u(1)"},
+		{"e(1,1)", "u(1)"},
+		{},
+	}
+	return p
+}
+
 // IsFact reports whether a pool clause is a fact (no body).
 func IsFact(clause string) bool { return !strings.Contains(clause, ":-") }
 
